@@ -38,6 +38,9 @@ type Case struct {
 	// have the tested name as a prefix or suffix (pz as a deepObject / plain value, zp); they are
 	// valid, so neither the decoded value nor any verdict about "p" may change
 	Neighbours bool `json:"neighbours,omitempty"`
+	// Default: JSON text of a schema default that satisfies the schema ("" = none). A default never makes
+	// a required parameter optional: absent and required is still "missing"
+	Default string `json:"default,omitempty"`
 }
 
 func TestMain(m *testing.M) { h.Main(m, "C05") }
@@ -107,6 +110,12 @@ func inlineRefs(v any) any {
 
 func build(c Case) (*openapi3.T, *openapi3.Parameter, error) {
 	p := M{"name": "p", "in": c.In, "schema": json.RawMessage(c.Schema)}
+	if c.Default != "" {
+		var sm M
+		_ = json.Unmarshal([]byte(c.Schema), &sm)
+		sm["default"] = jv.Parse(c.Default)
+		p["schema"] = sm
+	}
 	if c.Style != "" {
 		p["style"] = c.Style
 	}
@@ -239,11 +248,13 @@ func check(c Case) (o h.Outcome) {
 	o.Class("shape:%s:%s", c.Shape, c.Presence)
 
 	validate := func(req *http.Request, pp map[string]string) (error, error, bool) {
+		// defaults are written into the request: the second call gets a copy made before the first
+		req2 := req.Clone(context.Background())
 		in := &openapi3filter.RequestValidationInput{Request: req, PathParams: pp, Route: route}
 		var e1, e2 error
 		ok := o.Guarded("ValidateParameter", func() { e1 = openapi3filter.ValidateParameter(context.Background(), in, param) })
 		if ok {
-			in2 := &openapi3filter.RequestValidationInput{Request: req, PathParams: pp, Route: route}
+			in2 := &openapi3filter.RequestValidationInput{Request: req2, PathParams: pp, Route: route}
 			ok = o.Guarded("ValidateRequest", func() { e2 = openapi3filter.ValidateRequest(context.Background(), in2) })
 		}
 		return e1, e2, ok
@@ -258,6 +269,9 @@ func check(c Case) (o h.Outcome) {
 		}
 		required := c.Required || c.In == "path"
 		o.NonTrivial = true
+		if c.Default != "" {
+			o.Class("absent-with-default:required=%v", required)
+		}
 		if required {
 			if e1 == nil || !errors.Is(e1, openapi3filter.ErrInvalidRequired) {
 				o.Fail("absent-required-not-missing:"+c.In+":"+c.Shape, "an absent required parameter (%s) is not reported as missing: err=%v", cl, e1)
@@ -470,6 +484,14 @@ type shapeT struct {
 	values []string // JSON texts
 }
 
+// defaults: a default per shape that satisfies the shape's schema
+var defaults = map[string]string{
+	"integer": "7", "integer-int32": "7", "number": "2", "boolean": "true", "string": `"abc"`, "string-enum": `"a"`,
+	"array-integer": "[1,2]", "array-string": `["ab","cd"]`, "array-boolean": "[true]", "allOf-integer": "3", "anyOf-integer": "1",
+	"oneOf-string": `"a"`, "allOf-typeless-member": "3", "integer-diamond": "5", "integer-fallback": "7",
+	"object-flat": `{"i":1}`, "deep-flat": `{"i":1}`,
+}
+
 func shapesFor(c cellT) []shapeT {
 	strs := legalStrings(c, "")
 	q := func(s string) string { b, _ := json.Marshal(s); return string(b) }
@@ -558,6 +580,19 @@ func enumerate(shard, nshards int, yield func(Case)) {
 				c := base
 				c.Presence, c.Required = "absent", req
 				emit(c)
+				if d := defaults[sh.name]; d != "" {
+					c.Default = d
+					emit(c)
+					if cl.in != "path" && sh.name == "object-flat" {
+						c.Neighbours = true
+						emit(c)
+					}
+				}
+			}
+			if sh.name == "object-flat" && cl.in != "path" {
+				c := base
+				c.Presence, c.Required, c.Neighbours = "absent", true, true
+				emit(c)
 			}
 			if isPrim && (strings.HasPrefix(sh.name, "integer") || sh.name == "number" || sh.name == "boolean") {
 				gs := []string{"abc", "1.5x", "--1", "tru"}
@@ -596,10 +631,12 @@ func gen(t *rapid.T) Case {
 	c := Case{In: cl.in, Style: cl.style, Explode: cl.explode, Schema: sh.schema, Shape: sh.name, Presence: "present"}
 	c.Required = rapid.Bool().Draw(t, "required")
 	c.Neighbours = cl.in != "path" && rapid.IntRange(0, 2).Draw(t, "neighbours") == 0
+	neutral := true
 	if st, ex := effective(c); cl.in == "query" && st == "form" && ex && strings.HasPrefix(sh.name, "object") {
 		// the members of an exploded form object are top-level query keys: every other key of the
-		// query is a candidate member, so neighbours are not neutral there
-		c.Neighbours = false
+		// query is a candidate member, so neighbours are not neutral there (unless the schema names
+		// its members and the parameter is absent: see below)
+		neutral = false
 	}
 	// values: from the table or freshly drawn of the same shape
 	strs := legalStrings(cl, sh.name)
@@ -658,9 +695,15 @@ func gen(t *rapid.T) Case {
 	default:
 		c.Value = rapid.SampledFrom(sh.values).Draw(t, "tablevalue")
 	}
+	if d := defaults[sh.name]; d != "" && rapid.IntRange(0, 2).Draw(t, "default") == 0 {
+		c.Default = d
+	}
 	switch rapid.IntRange(0, 9).Draw(t, "absent") {
 	case 0:
 		c.Presence = "absent"
+		if sh.name == "object-flat" {
+			neutral = true // none of the neighbour keys is a declared member
+		}
 	case 1:
 		isNum := strings.HasPrefix(sh.name, "integer") || sh.name == "number" || sh.name == "boolean"
 		if isNum {
@@ -670,6 +713,9 @@ func gen(t *rapid.T) Case {
 			}
 			c.Presence, c.Garbage = "garbage", rapid.SampledFrom(gs).Draw(t, "garbage")
 		}
+	}
+	if !neutral {
+		c.Neighbours = false
 	}
 	return c
 }
